@@ -49,7 +49,9 @@ mod drive {
     /// one execution of the scenario: `n` sessions, the waiter polls at most `max_polls` times while sessions run;
     /// `early` = number of sessions whose guard is released by the accept thread itself before the next `add`
     /// (a connection that is over before the next one arrives: add / drop alternate on one thread)
-    pub fn scenario(n: usize, max_polls: usize, early: usize) {
+    /// `unwind` = number of session threads that end without reaching `done()`: their guard is dropped as an unwinding
+    /// session task drops it (a handler panic, `expect("Failed to send response")` on a reset connection)
+    pub fn scenario(n: usize, max_polls: usize, early: usize, unwind: usize) {
         ITERATIONS.fetch_add(1, StdOrdering::Relaxed);
         let wg = subject::WaitGroup::new();
         let cells: Vec<Arc<UnsafeCell<u32>>> = (0..n).map(|_| Arc::new(UnsafeCell::new(0))).collect();
@@ -61,9 +63,11 @@ mod drive {
                 cell.with_mut(|p| unsafe { *p = 1 });
                 guard.done();
             } else {
+                let unwinds = i - early < unwind;
                 handles.push(loom::thread::spawn(move || {
                     cell.with_mut(|p| unsafe { *p = 1 });   // the session's work
-                    guard.done();                            // session.manage() returned
+                    if unwinds { drop(guard) }               // the task unwinds: locals are dropped, `done()` is never reached
+                    else { guard.done() }                    // session.manage() returned
                 }));
             }
         }
@@ -116,12 +120,12 @@ fn main() {
     { println!("RESULT skipped reason={EXTRACT_STATUS:?}"); return; }
     #[cfg(wg_extracted)]
     {
-        // scenario name: wg-n<N>-p<polls>-e<early>
-        let mut n = 2; let mut polls = 2; let mut early = 0;
+        // scenario name: wg-n<N>-p<polls>-e<early>[-u<sessions that unwind>]
+        let mut n = 2; let mut polls = 2; let mut early = 0; let mut unwind = 0;
         for part in args[1].split('-').skip(1) {
             let (k, v) = part.split_at(1);
             let v: usize = v.parse().expect("scenario number");
-            match k { "n" => n = v, "p" => polls = v, "e" => early = v, _ => panic!("unknown scenario part {part}") }
+            match k { "n" => n = v, "p" => polls = v, "e" => early = v, "u" => unwind = v, _ => panic!("unknown scenario part {part}") }
         }
         let mut b = loom::model::Builder::new();
         b.preemption_bound = None;
@@ -132,7 +136,7 @@ fn main() {
         }
         let bound = b.preemption_bound;
         let t = std::time::Instant::now();
-        b.check(move || drive::scenario(n, polls, early));
+        b.check(move || drive::scenario(n, polls, early, unwind));
         println!("RESULT ok scenario={} iterations={} ready_early={} ready_late={} pending_polls={} preemption_bound={:?} wall_ms={}",
                  args[1], ITERATIONS.load(StdOrdering::Relaxed), READY_EARLY.load(StdOrdering::Relaxed),
                  READY_LATE.load(StdOrdering::Relaxed), PENDING_POLLS.load(StdOrdering::Relaxed), bound, t.elapsed().as_millis());
